@@ -35,11 +35,11 @@ from . import concretise as cz
 # KNOWN DEFECTS of modelx/export/transformer.py found with this table (reproduced on the unchanged
 # library; the regular templates avoid these two spellings, the PROBES exhibit them on purpose and
 # spec/MxExportTrace.tla classifies exactly these situations under KF: labels):
-#   kf_paren      a global name written in parentheses, `(r) + 1`: leave_Name (transformer.py:271-284)
+#   kf_paren      a global name written in parentheses, `(r) + 1`: leave_Name (transformer.py:277-289)
 #                 wraps the Name node including its parentheses -> `self.(r)`, the package does not
 #                 compile (SyntaxError on import).
 #   kf_compscope  Python >= 3.12 (PEP 709): a list/set/dict comprehension has no symbol table of its
-#                 own; should_replace (transformer.py:169-211) then steps back to the PREVIOUS table
+#                 own; should_replace (transformer.py:175-213, the fallback at 188-193) then steps back to the PREVIOUS table
 #                 of the flattened list, which is the table of the nearest nested function / lambda
 #                 defined earlier in the formula instead of the enclosing function -> global names
 #                 inside the comprehension are not rewritten -> NameError in the package.
